@@ -166,24 +166,30 @@ func drivePubSub(plan []M, out *Out, _ []string) {
 				}()
 			case "waitret":
 				id := num(st, "id")
-				select {
-				case <-w.ret[id]:
+				if _, ok := patientRecv(w.ret[id], 3*time.Second); ok {
 					w.drainNow()
 					w.log(M{"ev": "retcheck", "id": id})
-				case <-time.After(3 * time.Second):
+				} else {
 					w.log(M{"ev": "stuck", "what": fmt.Sprint("publish call ", id, " did not return")})
 				}
 			case "recv":
 				c := num(st, "c")
-				select {
-				case v, ok := <-w.subs[c]:
-					if ok {
-						w.log(M{"ev": "recv", "c": c, "v": v, "how": "block"})
-					} else {
-						w.log(M{"ev": "recv_closed", "c": c})
+			recvLoop:
+				for p := newPatience(1500 * time.Millisecond); ; {
+					select {
+					case v, ok := <-w.subs[c]:
+						if ok {
+							w.log(M{"ev": "recv", "c": c, "v": v, "how": "block"})
+						} else {
+							w.log(M{"ev": "recv_closed", "c": c})
+						}
+						break recvLoop
+					case <-p.Tick():
+						if p.Out() {
+							w.log(M{"ev": "recv_none", "c": c})
+							break recvLoop
+						}
 					}
-				case <-time.After(1500 * time.Millisecond):
-					w.log(M{"ev": "recv_none", "c": c})
 				}
 			case "withonly":
 				w.clones[num(st, "w")] = w.ps.WithOnly(w.subs[num(st, "c")])
@@ -207,9 +213,7 @@ func drivePubSub(plan []M, out *Out, _ []string) {
 				}()
 				time.Sleep(2 * time.Millisecond)
 			case "wait_unsub":
-				select {
-				case <-w.unsubDone:
-				case <-time.After(3 * time.Second):
+				if _, ok := patientRecv(w.unsubDone, 3*time.Second); !ok {
 					w.log(M{"ev": "stuck", "what": "Unsub did not return"})
 				}
 			case "unsub":
@@ -256,9 +260,7 @@ func drivePubSub(plan []M, out *Out, _ []string) {
 				}
 				allret := true
 				for id, d := range w.ret {
-					select {
-					case <-d:
-					case <-time.After(2 * time.Second):
+					if _, ok := patientRecv(d, 2*time.Second); !ok {
 						allret = false
 						w.log(M{"ev": "stuck", "what": fmt.Sprint("publish call ", id, " never returned")})
 					}
@@ -359,13 +361,16 @@ func psSlotBurst(sc M, out *Out) {
 			}(p)
 		}
 		close(start)
-		dl := time.After(2 * time.Second)
+		pt := newPatience(2 * time.Second)
 	wait:
-		for i := 0; i < pubs; i++ {
+		for i := 0; i < pubs; {
 			select {
 			case <-done:
-			case <-dl:
-				break wait
+				i++
+			case <-pt.Tick():
+				if pt.Out() {
+					break wait
+				}
 			}
 		}
 		deliv := len(ch)
